@@ -65,7 +65,11 @@ ClsOf(e) ==
       [] e.op = "f2.mul" -> LET x == DecFq2(e.a)  y == DecFq2(e.b)
                                 a0 == MontOf("Fq", x[1])  a1 == MontOf("Fq", x[2])  b0 == MontOf("Fq", y[1])  b1 == MontOf("Fq", y[2])
                                 n2a1 == MontOf("Fq", FQ!FNeg(FQ!FAdd(x[2], x[2])))
-                            IN { SopClass(Redc("Fq", BAdd(BMul(a0, b0), BMul(n2a1, b1)))), SopClass(Redc("Fq", BAdd(BMul(a0, b1), BMul(a1, b0)))) }
+                                Si == BAdd(BMul(a0, b1), BMul(a1, b0))
+                                kq == BDiv(BSub(BMul(Redc("Fq", Si), R256), Si), Q)
+                                zd == \E i \in 1..3 : SubSeq(kq \o <<0,0,0,0,0,0,0,0,0,0,0,0,0,0,0,0,0,0,0,0,0,0,0,0,0,0,0,0,0,0,0,0>>, 8 * i + 1, 8 * i + 8) = <<0,0,0,0,0,0,0,0>>
+                            IN { SopClass(Redc("Fq", BAdd(BMul(a0, b0), BMul(n2a1, b1)))), SopClass(Redc("Fq", Si)) }
+                               \cup (IF zd /\ Si # <<>> THEN {"sop.qdigit0"} ELSE {})
       [] e.op = "x.fq4.mul" ->       \* sum_of_products<4>: four coefficients, each a sum of four products (128 bytes = a11 | a10 | a01 | a00)
             LET L(bb, j) == MontOf("Fq", FromBE(SubSeq(bb, 32 * (j - 1) + 1, 32 * j)))
                 NL(bb, j) == LET v == FromBE(SubSeq(bb, 32 * (j - 1) + 1, 32 * j)) IN MontOf("Fq", FQ!FNeg(FQ!FAdd(v, v)))
@@ -80,7 +84,7 @@ ClsOf(e) ==
                  cls(S4(BMul(a00, b10), BMul(n01, b11), BMul(a10, b00), BMul(n11, b01))),
                  cls(S4(BMul(a00, b11), BMul(a01, b10), BMul(a10, b01), BMul(a11, b00))) }
       [] OTHER -> {}
-CovNames == {"mul.qdigit0", "mul.carry2", "mul.ge_p", "mul.lt_p", "add.carry", "add.eq_p", "add.ge_p", "add.lt_p", "sub.equal", "sub.borrow", "sub.plain",
+CovNames == {"sop.qdigit0", "mul.qdigit0", "mul.carry2", "mul.ge_p", "mul.lt_p", "add.carry", "add.eq_p", "add.ge_p", "add.lt_p", "sub.equal", "sub.borrow", "sub.plain",
              "sop.u4=0", "sop.u4=1.r<q", "sop.u4=1.r>=q", "sop.u4>=2",
              "sop4.u4=0", "sop4.u4=1", "sop4.u4=2", "sop4.u4>=3"}
 \* ---------------------------------------------------------------- conversions
